@@ -33,6 +33,7 @@ fn run_child(harness: &str, cfg: Value) {
         "c09" => Box::new(move || harness::queue::c09(&cfg)),
         "c06" => Box::new(move || harness::uow::c06(&cfg)),
         "c10" => Box::new(move || harness::agg::c10(&cfg)),
+        "c10_mutex" => Box::new(move || harness::agg::c10_mutex(&cfg)),
         "c17" => Box::new(move || harness::global::c17(&cfg)),
         "c20" => Box::new(move || harness::bridge::c20(&cfg)),
         "c13" => Box::new(move || harness::uow::c13(&cfg)),
